@@ -5,6 +5,7 @@ import TF.Model.PolyVal
 import TF.Model.PolyApi
 import TF.Model.PolyInterp
 import TF.Drv.PolyDiv
+import TF.Gen.PolyLoops
 /-!
 driver handler for the family `polyv` (C17): every public operation of `Polynomial<FF>` that the models cover, called
 on the raw storage given in the op line (stored leading zeros included).
@@ -158,6 +159,79 @@ def run {α : Type} (io : Io α) (op : String) (args : List Arg) : Option String
 
 def okXt (p : List X3) : String := "ok:" ++ fmtTripleList (normalize FX p)
 
+-- BEGIN BT6: the definitions regenerated from polynomial.rs (TF/Gen/PolyLoops.lean) evaluated next to the hand model
+/-- reply of the REGENERATED function for the op (rendered exactly like `run` renders the hand model's reply);
+    `none`: the op has no regenerated counterpart, or the operands are too long for the list-indexed loops -/
+def genRun {α : Type} (io : Io α) (op : String) (args : List Arg) : Option String :=
+  let F := io.F
+  let okP (p : List α) : String := "ok:" ++ io.fmtP (normalize F p)
+  let okPO : Option (List α) → String := fun r => match r with | some p => okP p | none => "panic"
+  let okB : Option Bool → String := fun r => match r with | some b => "ok:" ++ fmtBool b | none => "panic"
+  let small (a : List α) : Option Unit := if a.length ≤ 96 then some () else none
+  match op, args with
+  | "degree", [a] => do let a ← io.poly? a; pure (match Gen.Poly.degree F a with | some d => s!"ok:{d}" | none => "panic")
+  | "is_zero", [a] => do let a ← io.poly? a; pure (okB (Gen.Poly.is_zero F a))
+  | "is_one", [a] => do let a ← io.poly? a; pure (okB (Gen.Poly.is_one F a))
+  | "is_x", [a] => do let a ← io.poly? a; pure (okB (Gen.Poly.is_x F a))
+  | "coefficients", [a] => do
+      let a ← io.poly? a; pure (match Gen.Poly.coefficients F a with | some c => "ok:" ++ io.fmtP c | none => "panic")
+  | "into_coefficients", [a] => do
+      let a ← io.poly? a; pure (match Gen.Poly.into_coefficients F a with | some c => "ok:" ++ io.fmtP c | none => "panic")
+  | "into_owned", [a] => do let a ← io.poly? a; pure (okP (Gen.Poly.into_owned a))
+  | "leading_coefficient", [a] => do
+      let a ← io.poly? a
+      pure (match Gen.Poly.leading_coefficient F a with
+        | some (some c) => "ok:some:" ++ io.fmtE c | some none => "ok:none" | none => "panic")
+  | "eq", [a, b] => do let a ← io.poly? a; let b ← io.poly? b; pure (okB (Gen.Poly.eq F a b))
+  | "from_constant", [c] => do let c ← io.elem? c; pure (okP (Gen.Poly.from_constant c))
+  | "zero", [] => pure (okP (Gen.Poly.zero : List α))
+  | "one", [] => pure (okP (Gen.Poly.one F))
+  | "formal_derivative", [a] => do let a ← io.poly? a; pure (okP (Gen.Poly.formal_derivative F a))
+  | "neg", [a] => do let a ← io.poly? a; pure (okP (Gen.Poly.neg F a))
+  | "evaluate", [a, x] => do
+      let a ← io.poly? a; let x ← io.elem? x; pure ("ok:" ++ io.fmtE (Gen.Poly.evaluate F F.zero F.mul F.add a x))
+  | "shift_coefficients", [a, .nat n] => do
+      let a ← io.poly? a; if n > 100000 then none else pure (okP (Gen.Poly.shift_coefficients F a n))
+  | "scalar_mul", [a, s] => do let a ← io.poly? a; let s ← io.elem? s; pure (okP (Gen.Poly.scalar_mul F F.mul a s))
+  | "scalar_mul_mut", [a, s] => do let a ← io.poly? a; let s ← io.elem? s; pure (okP (Gen.Poly.scalar_mul_mut F F.mul a s))
+  | "scale", [a, s] => do let a ← io.poly? a; let s ← io.elem? s; pure (okP (Gen.Poly.scale F F.one F.mul F.mul a s))
+  | "truncate", [a, .nat k] => do let a ← io.poly? a; pure (okPO (Gen.Poly.truncate F a k))
+  | "mod_x_to_the_n", [a, .nat n] => do let a ← io.poly? a; pure (okPO (Gen.Poly.mod_x_to_the_n F a n))
+  | "add", [a, b] => do let a ← io.poly? a; let b ← io.poly? b; pure (okP (Gen.Poly.add F a b))
+  | "add_assign", [a, b] => do let a ← io.poly? a; let b ← io.poly? b; pure (okPO (Gen.Poly.add_assign F a b))
+  | "sub", [a, b] => do let a ← io.poly? a; let b ← io.poly? b; pure (okP (Gen.Poly.sub F a b))
+  | "mul", [a, b] => do
+      let a ← io.poly? a; let b ← io.poly? b; small a; small b; pure (okPO (Gen.Poly.mul F F F F.mul a b))
+  | "naive_multiply", [a, b] => do
+      let a ← io.poly? a; let b ← io.poly? b; small a; small b; pure (okPO (Gen.Poly.naive_multiply F F F F.mul a b))
+  | "slow_square", [a] => do let a ← io.poly? a; small a; pure (okPO (Gen.Poly.slow_square F a))
+  | "multiply", [a, b] => do
+      let a ← io.poly? a; let b ← io.poly? b; small a; small b
+      pure (okPO (Gen.Poly.multiply F F F F.mul (fastMultiply F io.T) a b))
+  | "square", [a] => do let a ← io.poly? a; small a; pure (okPO (Gen.Poly.square F (fastSquare F io.T) a))
+  | "fast_multiply", [a, b] => do
+      let a ← io.poly? a; let b ← io.poly? b
+      pure (okPO (Gen.Poly.fast_multiply F F F F.mul io.T.ntt io.T.ntt io.T.intt a b))
+  | "fast_square", [a] => do let a ← io.poly? a; pure (okPO (Gen.Poly.fast_square F io.T.ntt io.T.intt a))
+  | "divide", [a, d] => do
+      let a ← io.poly? a; let d ← io.poly? d; small a; small d
+      pure (match Gen.Poly.divide F a d with
+        | some (q, r) => "ok:" ++ io.fmtP (normalize F q) ++ "|" ++ io.fmtP (normalize F r) | none => "panic")
+  | "naive_divide", [a, d] => do
+      let a ← io.poly? a; let d ← io.poly? d; small a; small d
+      pure (match Gen.Poly.naive_divide F a d with
+        | some (q, r) => "ok:" ++ io.fmtP (normalize F q) ++ "|" ++ io.fmtP (normalize F r) | none => "panic")
+  | "div", [a, d] => do let a ← io.poly? a; let d ← io.poly? d; small a; small d; pure (okPO (Gen.Poly.div F a d))
+  | "rem", [a, d] => do let a ← io.poly? a; let d ← io.poly? d; small a; small d; pure (okPO (Gen.Poly.rem F a d))
+  | _, _ => none
+
+/-- the hand model's reply, or `GEN-MISMATCH` when the regenerated definition answers differently -/
+def genCheck {α : Type} (io : Io α) (op : String) (args : List Arg) (model : String) : String :=
+  match genRun io op args with
+  | some g => if g == model then model else s!"GEN-MISMATCH {op} gen={g} model={model}"
+  | none => model
+-- END BT6
+
 def polyv : Handler
   -- base-field only / mixed-field operations
   | "clean_divide", [.sym "b", q, d] => do
@@ -178,8 +252,8 @@ def polyv : Handler
       let a ← bPoly? a; let x ← xElem? x; pure ("ok:" ++ fmtTriple (evaluateLift FX xlift a x))
   | "evaluate_mixed", [.sym "xb", a, .nat x] => do
       let a ← xPoly? a; pure ("ok:" ++ fmtTriple (evaluateLift FX id a (xlift (x % P))))
-  | op, .sym "b" :: args => run ioB op args
-  | op, .sym "x" :: args => run ioX op args
+  | op, .sym "b" :: args => (run ioB op args).map (genCheck ioB op args)   -- BT6: GEN-MISMATCH wrapper
+  | op, .sym "x" :: args => (run ioX op args).map (genCheck ioX op args)   -- BT6
   | _, _ => none
 
 end TF.Drv.PolyV
